@@ -1148,7 +1148,12 @@ func (n *CustomNode) Exec(ctx context.Context, prepResult any) (any, error) {
 // Post implements Node.Post by calling the custom postFunc if provided
 func (n *CustomNode) Post(ctx context.Context, shared *SharedStore, prepResult, execResult any) (Action, error) {
 	if n.postFunc != nil {
-		return n.postFunc(ctx, shared, NewResult(prepResult), NewResult(execResult))
+		// Exec hands back an error Result as-is; don't wrap it a second time
+		execRes, ok := execResult.(Result)
+		if !ok || !execRes.IsError() {
+			execRes = NewResult(execResult)
+		}
+		return n.postFunc(ctx, shared, NewResult(prepResult), execRes)
 	}
 	return n.BaseNode.Post(ctx, shared, prepResult, execResult)
 }
